@@ -54,6 +54,12 @@ class QueryBase[T](ABC):
     def _common_conditions(self):
         """Add conditions common to all queries."""
 
+        # Every build starts from scratch: conditions must not accumulate
+        # across calls to `to_sql`, and a parameter list handed out by an
+        # earlier call must not be modified by a later one.
+        self._conditions = []
+        self._params = []
+
         if self.filter is not None:
             # Handle all filter conditions in one go here. The filter
             # conditions are on the flights table, which we alias as 'f' in the
